@@ -3,6 +3,7 @@ package main
 
 import (
 	"fmt"
+	"math/rand"
 	"runtime/debug"
 	"strings"
 
@@ -13,6 +14,7 @@ import (
 
 	"verif/corpus"
 	"verif/ev"
+	"verif/gen"
 	"verif/mutate"
 	sn "verif/simnode"
 )
@@ -87,7 +89,52 @@ func main() {
 		}
 		byDigest[k][canon(x)] = what
 	}
-	for ii, it := range w.Items {
+	// generated items: transactions drawn by the block generator on the corpus node (multi-input /
+	// multi-recipient transfers, one or two fee outputs, zero and frozen outputs, big amounts,
+	// versions 1-3); only those the node accepts become items
+	items := append([]corpus.Item{}, w.Items...)
+	nodeOf := map[string]*sn.Node{} // generated items live on their own, richer chain
+	{
+		o := gen.DefaultOpts()
+		o.KV = false
+		rng := rand.New(rand.NewSource(r.Seed*7919 + 7))
+		want := r.N(25, 300)
+		for round := 0; round < 40 && len(items)-len(w.Items) < want; round++ {
+			gt, err := gen.Generate(rng, o)
+			if err != nil {
+				continue
+			}
+			a, err := gt.Author(len(gt.Blocks) - 1)
+			if err != nil {
+				gt.Drop()
+				continue
+			}
+			for tries := 0; tries < 12 && len(items)-len(w.Items) < want; tries++ {
+				x, kind, err := gt.GenTx(rng, a)
+				if err != nil || x == nil {
+					continue
+				}
+				if ok, _, _ := verdict(a, x); !ok {
+					r.Count("generated.not-accepted", 1)
+					continue
+				}
+				k := sn.KeyByAddr(x.Initiator)
+				if k == nil {
+					continue
+				}
+				name := fmt.Sprintf("gen%d:%s", len(items), kind)
+				items = append(items, corpus.Item{Name: name, Tx: x, Signers: []*sn.Key{k}})
+				nodeOf[name] = a
+				r.Count("generated.items", 1)
+			}
+		}
+	}
+	corpusNode := n
+	for ii, it := range items {
+		n := corpusNode
+		if g := nodeOf[it.Name]; g != nil {
+			n = g
+		}
 		if ok, _, d := verdict(n, it.Tx); !ok {
 			r.Violation("corpus|honest-transaction-rejected|"+it.Name, "an honestly built transaction is rejected: "+d, map[string]string{"item": it.Name})
 			continue
@@ -168,7 +215,7 @@ func main() {
 			return z
 		}
 		// replay the signature of another transaction of the same signer
-		other := w.Items[(ii+1)%len(w.Items)]
+		other := items[(ii+1)%len(items)]
 		if len(it.Tx.InitiatorSigns) > 0 && len(other.Tx.InitiatorSigns) > 0 {
 			y := sn.CloneTx(it.Tx)
 			y.InitiatorSigns[0].Sign = append([]byte{}, other.Tx.InitiatorSigns[0].Sign...)
